@@ -83,7 +83,10 @@ struct Ser {
     bool inRoot(SourceLocation loc) const
     {
         auto f = fileOf(loc);
-        return !f.empty() && f.compare(0, gRoot.size(), gRoot) == 0;
+        if (f.empty()) { return false; }
+        if (f.compare(0, gRoot.size(), gRoot) == 0) { return true; }
+        // root may also be given as a path fragment (system headers are reached through non-normalised paths)
+        return gRoot[0] != '/' && f.find(gRoot) != std::string::npos;
     }
     std::string relFile(SourceLocation loc) const
     {
